@@ -88,7 +88,7 @@ def plan(seed, subbatch):
         ctype = "HA"
         fired["heikin_ashi_configured"] += 1
     return {"format": 1, "property": ID, "seed": seed, "subbatch": subbatch,
-            "config": {"process_tz": env[0] if env else None, "route": route, "tf": tf, "base_s": base_s, "lifespan_s": lifespan, "ctype": ctype,
+            "config": {"sim_now": planlib.pick_sim_now(sub_rng(seed, "sim-now"), rows), "process_tz": env[0] if env else None, "route": route, "tf": tf, "base_s": base_s, "lifespan_s": lifespan, "ctype": ctype,
                        "utc_offset_min": cfg.choice((None, None, None, None, 0, 60, 345))},
             "ops": [{"op": "new", "preload": pre}] + ops, "fired": dict(fired)}
 
